@@ -108,7 +108,7 @@ def _run(cfg):
     return v, len(a) + len(b)
 
 
-CONFIGS = [{}, {'rib': True}, {'local_as': 4200000001, 'hold': 30}, {'debug_log': True}]
+CONFIGS = [{}, {'rib': True}, {'local_as': 4200000001, 'hold': 30}, {'debug_log': True}, {'gethost_fails': 1}]
 
 
 def run(prop):
